@@ -24,6 +24,9 @@ pub const ASTCR: u32 = 0xfee021;
 pub const WCRH: u32 = 0xfee022;
 pub const WCRL: u32 = 0xfee023;
 pub const DRCRA: u32 = 0xfee026;
+pub fn is_bus_reg(a: u32) -> bool {
+    matches!(a, ABWCR | ASTCR | WCRH | WCRL | DRCRA)
+}
 
 /// baseline content: tag for vector/DRAM/RAM, zero for both I/O register blocks
 #[inline]
@@ -186,10 +189,14 @@ impl Emu {
             self.rebuild();
             return;
         }
+        let cfg = self.bus_cfg();
         for idx in [2usize, 4] {
             let bytes = self.base.regions[idx].1.clone();
             region_slice_mut(&mut self.cpu.bus, idx).copy_from_slice(&bytes);
         }
+        // the bus-controller registers are only ever changed through the write path
+        self.poke_bus_cfg(&cfg);
+        self.set_bus_cfg(&BusCfg::ZERO);
         self.cpu.bus.io_port_in = [0; 11];
         for p in 0..11u32 {
             // internal port latches back to 0 through the public write path
@@ -224,12 +231,26 @@ impl Emu {
         self.msg_rx.try_iter().collect()
     }
 
+    /// Program the bus controller the way a guest does: through `Bus::write`, and only the registers whose
+    /// value changes. The harness never pokes these five registers behind the emulator's back (an emulator
+    /// is free to cache what it derives from them as long as it follows the writes), and because unchanged
+    /// registers are not rewritten, consecutive cases see every kind of single-register transition.
     pub fn set_bus_cfg(&mut self, c: &BusCfg) {
-        raw_set(&mut self.cpu.bus, ABWCR, c.abwcr);
-        raw_set(&mut self.cpu.bus, ASTCR, c.astcr);
-        raw_set(&mut self.cpu.bus, WCRH, c.wcrh);
-        raw_set(&mut self.cpu.bus, WCRL, c.wcrl);
-        raw_set(&mut self.cpu.bus, DRCRA, c.drcra);
+        for (a, v) in [(ABWCR, c.abwcr), (ASTCR, c.astcr), (WCRH, c.wcrh), (WCRL, c.wcrl), (DRCRA, c.drcra)] {
+            if raw_get(&self.cpu.bus, a) != Some(v) {
+                let _ = self.cpu.bus.write(a, v);
+            }
+        }
+    }
+    pub fn bus_cfg(&self) -> BusCfg {
+        let g = |a: u32| raw_get(&self.cpu.bus, a).unwrap_or(0);
+        BusCfg { abwcr: g(ABWCR), astcr: g(ASTCR), wcrh: g(WCRH), wcrl: g(WCRL), drcra: g(DRCRA) }
+    }
+    /// poke the five registers (only to undo a poke of the whole register block)
+    fn poke_bus_cfg(&mut self, c: &BusCfg) {
+        for (a, v) in [(ABWCR, c.abwcr), (ASTCR, c.astcr), (WCRH, c.wcrh), (WCRL, c.wcrl), (DRCRA, c.drcra)] {
+            raw_set(&mut self.cpu.bus, a, v);
+        }
     }
 
     pub fn step(&mut self) -> EmuResult {
@@ -319,16 +340,35 @@ impl Emu {
         self.cpu.bus.dram[..] == self.base.regions[1].1[..]
     }
 
+    /// Set one byte of the pre-image of a case. Plain on-chip I/O registers go through the bus write path (as
+    /// a guest would set them), storage is poked; the bus-controller registers are left to `set_bus_cfg`.
+    pub fn set_byte(&mut self, a: u32, v: u8) {
+        if is_bus_reg(a) {
+            return;
+        }
+        let io = matches!(a, 0xfee000..=0xfee0ff | 0xffff20..=0xffffe9);
+        if io && !is_peripheral_reg(a) {
+            if raw_get(&self.cpu.bus, a) != Some(v) && self.cpu.bus.write(a, v).is_err() {
+                raw_set(&mut self.cpu.bus, a, v);
+            }
+        } else {
+            raw_set(&mut self.cpu.bus, a, v);
+        }
+    }
     /// restore the given addresses to the baseline
     pub fn restore<'a>(&mut self, addrs: impl Iterator<Item = &'a u32>) {
         for &a in addrs {
-            raw_set(&mut self.cpu.bus, a, baseline_byte(a));
+            // bus-controller registers: left as they are, the next case programs them (see set_bus_cfg)
+            self.set_byte(a, baseline_byte(a));
         }
     }
     pub fn restore_all(&mut self) {
+        let cfg = self.bus_cfg();
         for (i, (_, bytes)) in self.base.clone().regions.iter().enumerate() {
             region_slice_mut(&mut self.cpu.bus, i).copy_from_slice(bytes);
         }
+        self.poke_bus_cfg(&cfg);
+        self.set_bus_cfg(&BusCfg::ZERO);
         self.cpu.bus.io_port_in = [0; 11];
     }
 
